@@ -139,6 +139,14 @@ def run(ctx):
                   "a write API call queues at most one command and returns that command's send result (%d paths)" % len(paths),
                   f.where(), "; ".join("%s via %s" % x for x in bad[:3]))
     ctx.floor("R11.4", "public write APIs returning a send result", n_api, 6)
+    # ---- R11.9 every queued write is applied: the one thread that applies them cannot be stopped by a lock-order cycle
+    W_ = find_worker(ctx, A)
+    if W_ is not None:
+        import c18
+        bad_cycle, bad_self = c18.cycle_through(ctx, [W_.name])
+        ctx.check(bad_cycle is None and not bad_self, "R11.9", "no-lock-cycle-through-worker",
+                  "no lock-order cycle (or same-class nested acquisition) involves code reachable from the command worker: a worker stuck behind another thread applies no further write",
+                  detail=("cycle %s" % " -> ".join(bad_cycle) if bad_cycle else "") + (" self %s" % bad_self[:2] if bad_self else ""))
     # ---- R11.8 (= C12 R12.3) an acknowledgement that completed is delivered to whoever awaits it *now*: completion order is
     # observed through the futures, and a handle that keeps the first waker it saw never wakes a later awaiter - the
     # earlier write then never completes for its awaiter while later ones do
